@@ -9,19 +9,31 @@ function returns for them and stores it in the outputs.  The same fidelity holds
 nodes (inputs-to-list/dict/table, list-to-outputs) and for dataclass nodes, whose output is the
 dataclass built from the inputs with field defaults and default factories applied."
 
-What is proved here (for every signature of positional-or-keyword parameters of any length, every
-split of the supplied values into positional / keyword form at construction and at call time, every
-function body `F`, every transformer size, every field layout):
+What is proved here (for every parameter list, every return statement shape, every set of declared
+labels, every signature of positional-or-keyword parameters of any length, every split of the supplied
+values into positional / keyword form at construction and at call time, every function body `F`, every
+transformer size, every field layout):
 
+* `C17_inputs` — one input per parameter, in order, with its default and annotation (and exactly the
+  definitions with a parameter named like a keyword of `Node.__init__` are refused).
+* `C17_labels_declared / _scraped / _none / _refused`, `C17_output_count` — one output per returned value,
+  labelled as declared, else as written in the return statement; count validation refuses a mismatch.
+* `C17_preview_is_instance` — the instance's channels are the class-level preview, one for one.
 * `C17_bind`, `C17_run` — the node hands the body exactly the values Python's own call binds
   (`pyArgs`, written independently as a walk over the parameter list), refuses exactly what Python's
   binder refuses, and turns a *missing* argument into a readiness refusal instead of a `TypeError`.
-* `C17_outputs_single/_multi` — what the body returns lands on the outputs in order; `run` returns it.
-* `C17_xf_list/_dict/_df/_unpack/_dataclass*` — the transformer and dataclass nodes are the obvious maps.
+* `C17_outputs_single/_multi`, `C17_fn_again` — what the body returns lands on the outputs in order; `run`
+  (also a repeated one) returns it.
+* `C17_fn_faithful` — all of the above end to end, from the definition to the stored outputs.
+* `C17_xf_preview`, `C17_xf_list/_dict/_df/_unpack`, `C17_dc_preview`, `C17_xf_dataclass*`, `C17_xf_rerun*` —
+  the transformer and dataclass nodes are the obvious maps, for every size and layout.
 
-NOT in Lean (validated differentially by the harness only): scraping of output labels from the
-source text, `preview_io()`, annotations → type hints.  The model takes the *number* of outputs
-from the definition.
+What python's `inspect` and `ast` do with the *text* of a definition is an input of the model, not part of
+it: the model is handed the parameters (name, evaluated annotation, default), the `return` statements as
+`ast` shows them (a tuple of element texts or one expression text) and the evaluated return annotation with
+its `typing.get_args`.  That these are read off the source correctly (whitespace, multi-line returns,
+`from __future__ import annotations`, `None`, unions) is checked on real generated source files by the
+harness (correspondence + oracle), not proved.
 
 Only property theorems live here; lemmas are in `Proofs/FuncWrap.lean`.
 -/
@@ -720,6 +732,23 @@ example :
 example : (dfBuild [Val.dict [("a", .atom "1"), ("b", .atom "2")], Val.dict [("b", .atom "4"), ("a", .atom "3")]])
     = some (Val.df [("a", [.atom "1", .atom "3"]), ("b", [.atom "2", .atom "4"])]) := by rfl
 example : (unpackCall (listToOutputsNode 2) [Val.list [.atom "1", .atom "2", .atom "3"]] []).2 = .runError := by rfl
+/-- the hypotheses of `C17_xf_list / _dict / _unpack / _df` are satisfiable, and the model computes the stated results -/
+example : pyArgs (noDefault (itemLabels "item_" 2)) [.atom "1"] [] [] [("item_1", .atom "2")] = .ok [.atom "1", .atom "2"] := by rfl
+example : (match construct (inputsToListNode 2) [.atom "1"] [] with
+    | .ok n1 => some (xfCall .toList n1 [] [("item_1", .atom "2")]).2 | .error _ => none)
+    = some (.ret (Val.list [.atom "1", .atom "2"])) := by rfl
+example : pyArgs [⟨"k", none⟩, ⟨"m", some (.atom "7")⟩] [] [("k", .atom "1")] [] [] = .ok [.atom "1", .atom "7"] := by rfl
+example : pyArgs (noDefault ["list"]) [] [] [Val.list [.atom "1"]] [] = .ok [Val.list [.atom "1"]] := by rfl
+example : (unpackCall (listToOutputsNode 2) [Val.list [.atom "1"]] []).1.outs = [("item_0", .atom "1"), ("item_1", .nd)] := by rfl
+example : pyArgs (noDefault (itemLabels "row_" 2)) [] []
+    [Val.dict (["a", "b"].zip [.atom "1", .atom "2"]), Val.dict (["a", "b"].zip [.atom "3", .atom "4"])] []
+    = .ok ([[.atom "1", .atom "2"], [.atom "3", .atom "4"]].map fun r => Val.dict (["a", "b"].zip r)) := by rfl
+/-- `FieldsOk`, `orderOk` and a successful dataclass call (hypotheses of `C17_xf_dataclass_partial`) -/
+example : (witnessFields.map (·.name)).Nodup ∧ orderOk witnessFields = true := ⟨by decide, rfl⟩
+example : pyDataclass witnessFields [.atom "1"] [] [] [] = .ok (Val.dc [("x", .atom "1"), ("z", .atom "g()")]) := by rfl
+example : (match construct (dcNode witnessFields) [.atom "1"] [] with
+    | .ok n1 => some (dcCall n1 [] []).2 | .error _ => none)
+    = some (.ret (Val.dc [("x", .atom "1"), ("z", .atom "g()")])) := by rfl
 
 /-! ### non-vacuity of the definition-layer theorems -/
 
